@@ -190,18 +190,23 @@ pub fn driver_answers_for_declared_part(deadline: &Deadline) -> Stats {
     use crate::driver::Step;
     use crate::props::util::*;
     type F = fn(Option<i64>, Option<i64>) -> Option<i64>;
-    let progs: Vec<(&str, F)> = vec![
+    let progs: Vec<(&str, F)> = vec![ // (W = (Q) in the last program fails whenever Q is Z/X: then no row may be returned at all)
         ("A Q V\ndeclare V = Q + 1;\n1 X X\n2 1 3\n3 X 99\n", |q, _| q.map(|q| q + 1)),
         ("A V\ndeclare V = Q * 2 + R;\n1 X\nC 7\n2 99\n", |q, r| Some(q? * 2 + r?)),
         ("A Q\ndeclare V = (Q);\n1 X\n2 X\n", |q, _| q),
+        ("A V Q\ndeclare V = Q;\n1 2 X\n2 X X\n", |q, _| q),
+        ("A V\ndeclare V = R;\ndeclare W = (Q);\n1 2\nC X\n", |q, r| {
+            q?;
+            r
+        }),
         ("A Q V\nlet Q = 9;\ndeclare V = ite(R, Q, 7);\n1 X X\n(Q) X 99\n", |q, r| if r? != 0 { q } else { Some(7) }),
     ];
     let sigs = sigs();
     let vnum = [0i64, 99, -1, 3];
     let qs = [V::Num(2), V::Num(98), V::Z, V::X];
     let positions = 3usize;
-    par_range("driver that also answers for the declared signal: 4 programs x 4 values given for it x 3 positions in the answer x 4 values of Q x {every call, from the second call on}", (progs.len() * vnum.len() * positions * qs.len() * 2) as u64, deadline, |u, st| {
-        let d = digits(u, &[2, qs.len() as u64, positions as u64, vnum.len() as u64, progs.len() as u64]);
+    par_range("driver that also answers for the declared signal: 4 programs x 4 values given for it x 3 positions in the answer x 4 values of Q x {every call, from the second call on, never (declarations that merely rename an output included)}", (progs.len() * vnum.len() * positions * qs.len() * 3) as u64, deadline, |u, st| {
+        let d = digits(u, &[3, qs.len() as u64, positions as u64, vnum.len() as u64, progs.len() as u64]);
         let (text, f) = progs[d[4]];
         let Ok(tc) = load(text, &sigs, DEFAULT_BUDGET) else { return };
         let qv = qs[d[1]];
@@ -209,7 +214,14 @@ pub fn driver_answers_for_declared_part(deadline: &Deadline) -> Stats {
         let plain = ans.clone();
         ans.insert(d[2], ("V".to_string(), V::Num(vnum[d[3]])));
         // the first answer fixes the layout: with and without the entry for the declared signal
-        let script = if d[0] == 0 { vec![Step::Ans(ans)] } else { vec![Step::Ans(plain), Step::Ans(ans)] };
+        let script = match d[0] {
+            0 => vec![Step::Ans(ans)],
+            1 => vec![Step::Ans(plain), Step::Ans(ans)],
+            _ => vec![Step::Ans(plain)],
+        };
+        if d[0] == 2 {
+            st.witness("renaming_declaration_under_Z_and_X");
+        }
         let mut opts = RunOpts::new(10);
         opts.repeat_last = true;
         opts.continue_after_error = true;
@@ -236,7 +248,7 @@ pub fn driver_answers_for_declared_part(deadline: &Deadline) -> Stats {
                 }
             };
             if let Some(b) = bad {
-                st.violation("a declared signal takes the value the driver lists for it", u, format!("program:\n{text}the driver answers {:?} (repeated)\nitem {k}: {b}", script.last()), || dyn_replay(text, &sigs, true, &script, &opts, vec!["rows whose V is the declaration over the row's outputs, or error items".into()], &o, &b));
+                st.violation(if d[0] == 2 { "a declared signal differs from its declaration over the row's outputs (Z/X passed through, or a wrong value)" } else { "a declared signal takes the value the driver lists for it" }, u, format!("program:\n{text}the driver answers {:?} (repeated)\nitem {k}: {b}", script.last()), || dyn_replay(text, &sigs, true, &script, &opts, vec!["rows whose V is the declaration over the row's outputs, or error items".into()], &o, &b));
                 return;
             }
         }
